@@ -55,11 +55,12 @@ def read_lines(path):
         return f.read().split('\n')[:-1] if os.path.getsize(path) else []
 
 
-def run_impl(wd, cases, tag='impl', timeout_ms=10000):
+def run_impl(wd, cases, tag='impl', timeout_ms=10000, binary='harness', extra_env=None):
     cp = os.path.join(wd, tag + '.cases')
     op = os.path.join(wd, tag + '.out')
     write_lines(cp, cases)
-    r = sh([os.path.join(BUILD, 'harness'), 'run', cp, op, str(timeout_ms)])
+    env = dict(ENV, **(extra_env or {}))
+    r = subprocess.run([os.path.join(BUILD, binary), 'run', cp, op, str(timeout_ms)], env=env)
     if r.returncode != 0:
         raise Infra('harness run failed')
     out = read_lines(op)
